@@ -12,6 +12,7 @@ mod w2;
 mod w2r;
 mod w3;
 mod w4;
+mod xcheck;
 
 use engine::Tier;
 
